@@ -319,6 +319,7 @@ where
     let stop = AtomicBool::new(false);
     let mut part_reports: Vec<Value> = vec![];
     let mut any_exhaustive = false;
+    let mut any_random = false;
 
     // watchdog: never report slowness as a violation
     let limit_s: u64 = std::env::var("VERIF_WATCHDOG_S").ok().and_then(|s| s.parse().ok()).unwrap_or(spec.tier.pick(1500, 6 * 3600));
@@ -385,6 +386,7 @@ where
         let before = stats.lock().unwrap().evaluations;
         match &part.kind {
             PartKind::Random { make, cases } => {
+                any_random = true;
                 let cases = scaled(*cases);
                 let per = (cases + threads as u64 - 1) / threads as u64;
                 std::thread::scope(|s| {
@@ -573,7 +575,9 @@ where
         "distinct_nontrivial": st.nontrivial.len(),
         "rule": spec.rule,
         "samples": samples,
-        "exhaustive": any_exhaustive && violations.is_empty(),
+        // true only if the whole run was a complete enumeration; per-part completeness is in "parts"
+        "exhaustive": any_exhaustive && !any_random && violations.is_empty(),
+        "has_complete_exhaustive_parts": any_exhaustive && violations.is_empty(),
         "parts": part_reports,
         "class_counts": classes,
         "known_findings": known_report,
